@@ -10,6 +10,11 @@ CHECKS = {
    note=NOTE + " C04: the use of the operators by do.go (INCDEC, LOCALINCDEC, CAST, LOCALSET ...) and by the compiler is tied by the system-level sweep, not by translation.",
    technique="Coq proof over go2v-regenerated operator definitions + vm_compute correspondence + exhaustive differential sweep",
    ref="DESIGN.md section 5 C04"),
+ "C05": dict(
+   text="Theorems about the binding-power table regenerated from symbol.go by go2v on every run (c05_table: order-isomorphic to Go's five levels, unary above binary and below postfix) and about the Pratt loop transcribed in Model/Pratt.v (soundness and completeness w.r.t. the declarative grouping predicate of GoSpec/GoPrec.v, for token lists of any length). Correspondence: model parser vs real tokenizer+parser tree dumps; system level: grouping vs go/parser and values vs an int32/bool evaluation of the go/parser AST, all operator pairs/triples exhaustively.",
+   note=NOTE + " C05: the parser loop is tied by correspondence (hand transcription), the table by translation; text/scanner is not modelled.",
+   technique="Coq proof (table by reflection on go2v output, Pratt loop soundness/completeness) + correspondence + differential against go/parser",
+   ref="DESIGN.md section 5 C05"),
 }
 NOT_APPLICABLE = []
 def main():
